@@ -135,7 +135,12 @@ def intstr_term(n):
     n = SInt.of(n)
     c = conc(n)
     if c is not None:
-        return z3.StringVal(str(c))
+        lit = z3.StringVal(str(c))
+        lreg = vc.ghost.setdefault('__intstr_lits__', set())
+        if c not in lreg:
+            lreg.add(c)
+            vc.solver.add(z3.And(STRINT_fn(lit) == c, NAMEKIND_fn(lit) == 1))
+        return lit
     t = INTSTR_fn(n.t)
     reg = vc.ghost.setdefault('__intstr_terms__', set())
     if t.get_id() in reg:
@@ -143,7 +148,7 @@ def intstr_term(n):
     reg.add(t.get_id())
     vc.ghost.setdefault('__intstr_keep__', []).append(t)
     # injective, through its inverse (one axiom per ground term)
-    vc.solver.add(STRINT_fn(t) == n.t)
+    vc.solver.add(z3.And(STRINT_fn(t) == n.t, NAMEKIND_fn(t) == 1))
     vc.solver.add(z3.Length(t) > 0)
     vc.solver.add(z3.Not(z3.Contains(t, z3.StringVal('.'))))
     vc.solver.add(z3.Not(z3.Contains(t, z3.StringVal('/'))))
@@ -153,8 +158,29 @@ def intstr_term(n):
     return t
 
 
+LOCKNAME_fn = z3.Function('lock_name', IntS, StrS)      # f'{n}.lock'
+LOCKID_fn = z3.Function('lock_name_id', StrS, IntS)
+NAMEKIND_fn = z3.Function('name_kind', StrS, IntS)       # 1: str(int), 2: f'{int}.lock'
+
+
+def lockname_term(n):
+    """f'{n}.lock' as an uninterpreted injective function of n that never yields a plain numeral (facts about
+    str(int) + '.lock', part of E-INTSTR; stated through inverses, one axiom per ground term)."""
+    vc = cur()
+    n = SInt.of(n)
+    t = LOCKNAME_fn(n.t)
+    reg = vc.ghost.setdefault('__lockname_terms__', set())
+    if t.get_id() not in reg:
+        reg.add(t.get_id())
+        vc.ghost.setdefault('__lockname_keep__', []).append(t)
+        vc.solver.add(z3.And(LOCKID_fn(t) == n.t, NAMEKIND_fn(t) == 2))
+    return t
+
+
 def flatten_str(I, x):
     """IntStr / StrCat / str / SStr -> SStr term."""
+    if isinstance(x, StrCat) and len(x.parts) == 2 and isinstance(x.parts[0], IntStr) and x.parts[1] == '.lock':
+        return SStr(lockname_term(x.parts[0].n))
     if isinstance(x, (str, SStr)):
         return SStr.of(x)
     if isinstance(x, IntStr):
@@ -743,13 +769,22 @@ class World:
         self.fd_counter = 100
         self.log = []                              # effect log (concrete tags with symbolic payloads)
 
+    def _live(self):
+        # A universally quantified hypothesis is instantiated LATER than it is stated: its body must talk about the state
+        # it was stated in (a frozen view, `snap(world)`), never about the live world at instantiation time.
+        vc = cur()
+        if vc is not None and getattr(vc, '_instantiating', False):
+            raise CheckerError('a quantified clause reads the live world while being instantiated (use a frozen view)')
+
     def data(self, ino):
+        self._live()
         return SBytes(z3.simplify(z3.Select(self.idata, SInt.of(ino).t)))
 
     def set_data(self, ino, b):
         self.idata = z3.Store(self.idata, SInt.of(ino).t, SBytes.of(b).t)
 
     def synced(self, ino):
+        self._live()
         return SInt(z3.Select(self.isync, SInt.of(ino).t))
 
     def set_synced(self, ino, n):
@@ -1006,9 +1041,17 @@ class FileObj:
         self._flush(I, 'truncate')
         old = self.content()
         cut = self.kpos
-        ext = SBytes.fresh('zerofill')
-        I.vc.assume(ext.length() == smax(cut - old.length(), 0))
-        new = old.slice(0, cut) + ext
+        vc = I.vc
+        # case split (keeps every content term an extraction of a variable): at the end / inside / beyond the end
+        if vc.branch(cut == old.length(), label='truncate:at_end'):
+            effect(I, 'file_truncate', file=self, cut=cut, old=old)
+            return cut
+        if vc.branch(cut < old.length(), label='truncate:shrinks'):
+            new = old.slice(0, cut)
+        else:
+            ext = SBytes.fresh('zerofill')
+            vc.assume(ext.length() == cut - old.length())
+            new = old + ext
         self.world.set_data(self.ino, new)
         # data beyond the cut is gone; the synced watermark cannot exceed the new length
         self.world.set_synced(self.ino, smin(self.world.synced(self.ino), cut))
